@@ -2,7 +2,7 @@ SPECIFICATION Spec
 CONSTANTS
   CFGS <- Q_CFGS
   SPECTRA <- Q_SPECTRA
-  INFL = {0, 1}
+  INFL = {0, 1, 2}
   NESTEDONLY = TRUE
 INVARIANT ErrBound
 INVARIANT RankBound
